@@ -20,8 +20,14 @@ chk.extra['rule'] = ('systems of 1-3 molecules with 1-2 chains each (shared inpu
                      'through the real GoPipeline; contact lists mix symmetric, one-directional, absent-residue, '
                      'absent-chain and self entries; cut-offs are often placed exactly on an occurring distance; '
                      'a case is non-trivial if it has >= 1 one-directional and >= 1 symmetric contact between '
-                     'present residues; distinct = distinct protocol line')
-chk.lean(['VermouthProps.C18'], 'driver_c18')
+                     'present residues; histories apply ONE GoProcessorPipeline / VirtualSiteCreator / '
+                     'ComputeStructuralGoBias object to 2-3 systems (or one application to an unmerged system) and '
+                     'compare each result with a fresh processor and with the model (non-trivial: >= 1 Go pair emitted); '
+                     'contact-map files mix selected, unselected, comment, short/long, malformed-integer lines and '
+                     'all newline conventions (non-trivial: accepted file with noise lines); every third contact list '
+                     'reaches the pipeline through the real read_go_map, every fourth result is written with '
+                     'write_nonbond_params/write_atomtypes and the files are checked; distinct = distinct protocol line')
+chk.lean(['VermouthProps.C18', 'VermouthProps.C18_Reuse'], 'driver_c18')
 
 import numpy as np
 import networkx as nx
@@ -30,12 +36,23 @@ import vermouth.forcefield
 import vermouth.molecule
 from vermouth.rcsu.go_pipeline import GoPipeline
 from vermouth.graph_utils import make_residue_graph
+from vermouth.rcsu.go_pipeline import GoProcessorPipeline
+from vermouth.rcsu.go_vs_includes import VirtualSiteCreator
+from vermouth.rcsu.go_structure_bias import ComputeStructuralGoBias
+from vermouth.rcsu.contact_map import read_go_map
+from vermouth.processors import SetMoleculeMeta
+from vermouth.gmx.topology import write_nonbond_params, write_atomtypes
+from vermouth.file_writer import DeferredFileWriter
+import shutil
+import tempfile
+TMP = tempfile.mkdtemp(prefix='verif_c18_')
 
 quiet_vermouth_logs()
 chk.trusted.append('harness/c18.py: system builder, canonicaliser of nodes/interactions/nonbond_params, property oracle '
                    '(networkx shortest paths, Fractions); exactness of float sqrt/comparison on integer lattices with '
                    'dyadic cut-offs')
 KNOWN_IDS = {k['id'] for k in chk.known if k.get('status') == 'known'}
+FIXED_IDS = {k['id'] for k in chk.known if k.get('status') == 'fixed'}
 
 BB_TYPES = ['P2', 'SP2', 'P1', 'SP1a', 'Q5', 'N4a']
 SC_TYPES = ['SC3', 'TC5', 'C5', 'SP1', 'TN6d', 'SQ3p', 'C6', 'P2']
@@ -86,37 +103,12 @@ def num(x):
     return 'f' + repr(x)
 
 
-def run_real(spec):
-    """-> (protocol line, canonical impl string, observation dict for the oracle)"""
-    system = build_system(spec)
-    par = spec['params']
-    vermouth.MergeAllMolecules().run_system(system)
-    mol = system.molecules[0]
-    pre = [(k, dict(a)) for k, a in mol.nodes(data=True)]
-    pre_edges = [[a, b] for a, b in mol.edges]
-    pre_excl = len(mol.interactions.get('exclusions', []))
-    pre_vsn = len(mol.interactions.get('virtual_sitesn', []))
-    atoms = dump_atoms(mol)
-    contacts = [tuple(c) for c in spec['contacts']]
-    system.go_params['go_map'] = [list(contacts)]
-    low, up = Fraction(*par['low']), Fraction(*par['up'])
-    ln = line('go', par['prefix'], par['backbone'], par['vsname'], atoms, pre_edges,
-              [list(c) for c in contacts], low.numerator, low.denominator, up.numerator, up.denominator, par['sep'])
-    status = 'ok'
-    try:
-        GoPipeline.run_system(system, moltype=par['prefix'], cutoff_short=float(low), cutoff_long=float(up),
-                              go_eps=par['eps'], res_dist=par['sep'], go_anchor_bead=par['backbone'],
-                              go_atomname=par['vsname'])
-    except SystemExit:
-        status = 'exit'
-    except KeyError:
-        status = 'keyerror'
-    mol = system.molecules[0]
+def canon(mol, pre, pre_vsn, pre_excl, nb, status):
+    """canonical string of what was added to one molecule (+ the Go potentials `nb` emitted for it)"""
     old = {k for k, _ in pre}
     new = [(k, a) for k, a in mol.nodes(data=True) if k not in old]
     vsn = mol.interactions.get('virtual_sitesn', [])[pre_vsn:]
     excl = mol.interactions.get('exclusions', [])[pre_excl:]
-    nb = system.gmx_topology_params['nonbond_params']
     bb_of = {}
     for it in vsn:
         bb_of.setdefault(it.atoms[0], []).append(it.atoms[1] if len(it.atoms) == 2 else None)
@@ -139,8 +131,89 @@ def run_real(spec):
     excl_c = [list(it.atoms) for it in excl]
     impl = 'vs %s inter %s go %s' % (enc(vs_c), enc(inter_c),
                                      ('ok %s %s' % (enc(nb_c), enc(excl_c))) if status == 'ok' else status)
+    return impl, new, vsn, excl
+
+
+def map_file_text(contacts, rng=None):
+    """An rCSU contact-map file listing exactly `contacts` (selected lines), with the usual header noise."""
+    out = ['Reading file:    ../aa.pdb', '', 'Residue-Residue Contacts', 'ID    I1  AA  C I(PDB)    I2  AA  C I(PDB)']
+    for n, (ra, ca, rb, cb) in enumerate(contacts):
+        flags = '1 1 0 1' if n % 3 else '0 0 0 1'      # column 12 = 1, or column 12 = 0 and column 15 = 1
+        out.append('R %6d %5d  ALA %s %4d   %6d  GLY %s %4d   %10.4f     %s    11     369    0'
+                   % (n + 1, 7, ca, ra, 8, cb, rb, 3.8094, flags))
+        if n % 4 == 1:   # an unselected line in between
+            out.append('R %6d %5d  ALA %s %4d   %6d  GLY %s %4d   %10.4f     0 1 0 0    11     369    0'
+                       % (n + 1, 7, ca, ra + 1000, 8, cb, rb, 3.8))
+    return '\n'.join(out) + '\n'
+
+
+def pipeline_runner(pipeline):
+    def run(system, par, low, up):
+        pipeline.run_system(system, moltype=par['prefix'], cutoff_short=float(low), cutoff_long=float(up),
+                            go_eps=par['eps'], res_dist=par['sep'], go_anchor_bead=par['backbone'],
+                            go_atomname=par['vsname'])
+    return run
+
+
+def new_bias_processor(par):
+    low, up = Fraction(*par['low']), Fraction(*par['up'])
+    return ComputeStructuralGoBias(cutoff_short=float(low), cutoff_long=float(up), go_eps=par['eps'],
+                                   res_dist=par['sep'], moltype=par['prefix'], go_anchor_bead=par['backbone'])
+
+
+def processors_runner(vsc, bias):
+    """what GoPipeline does after the merge, with the given (possibly reused) processor objects"""
+    def run(system, par, low, up):
+        SetMoleculeMeta(moltype=par['prefix']).run_system(system)
+        vsc.run_system(system)
+        bias.run_system(system)
+    return run
+
+
+def run_real(spec, runner=None, via_file=False):
+    """-> (protocol line, canonical impl string, observation dict for the oracle)"""
+    system = build_system(spec)
+    par = spec['params']
+    vermouth.MergeAllMolecules().run_system(system)
+    mol = system.molecules[0]
+    pre = [(k, dict(a)) for k, a in mol.nodes(data=True)]
+    pre_edges = [[a, b] for a, b in mol.edges]
+    pre_excl = len(mol.interactions.get('exclusions', []))
+    pre_vsn = len(mol.interactions.get('virtual_sitesn', []))
+    atoms = dump_atoms(mol)
+    contacts = [tuple(c) for c in spec['contacts']]
+    file_err = None
+    if via_file:
+        # the contact list reaches the pipeline through the real reader
+        path = os.path.join(TMP, 'map_%d.map' % len(os.listdir(TMP)))
+        with open(path, 'w') as f:
+            f.write(map_file_text(contacts))
+        try:
+            read_go_map(system, path)
+        except (ValueError, IOError) as exc:
+            system.go_params['go_map'] = [[('unreadable', type(exc).__name__)]]
+        os.remove(path)
+        if [tuple(c) for c in system.go_params['go_map'][0]] != contacts:
+            got_ = system.go_params['go_map'][0]
+            system.go_params['go_map'] = [list(contacts)]
+            file_err = 'read_go_map returned %r for the file listing %r' % (got_, contacts)
+    else:
+        system.go_params['go_map'] = [list(contacts)]
+    low, up = Fraction(*par['low']), Fraction(*par['up'])
+    ln = line('go', par['prefix'], par['backbone'], par['vsname'], atoms, pre_edges,
+              [list(c) for c in contacts], low.numerator, low.denominator, up.numerator, up.denominator, par['sep'])
+    status = 'ok'
+    try:
+        (runner or pipeline_runner(GoPipeline))(system, par, low, up)
+    except SystemExit:
+        status = 'exit'
+    except KeyError:
+        status = 'keyerror'
+    mol = system.molecules[0]
+    nb = system.gmx_topology_params['nonbond_params']
+    impl, new, vsn, excl = canon(mol, pre, pre_vsn, pre_excl, nb, status)
     obs = dict(system=system, mol=mol, pre=pre, new=new, vsn=vsn, excl=excl, nb=nb, status=status,
-               low=low, up=up, contacts=contacts, pre_edges=pre_edges)
+               low=low, up=up, contacts=contacts, pre_edges=pre_edges, atoms=atoms, file_err=file_err)
     return ln, impl, obs
 
 
@@ -339,12 +412,232 @@ def order_sensitive(spec, obs):
 
 
 # ----------------------------------------------------------------------------
+# what is written for the Go model: [ nonbond_params ] and [ atomtypes ] (oracle on the real files)
+# ----------------------------------------------------------------------------
+def writer_oracle(obs):
+    errs = []
+    system = obs['system']
+    d = tempfile.mkdtemp(dir=TMP)
+    p_nb, p_at = os.path.join(d, 'go_nbparams.itp'), os.path.join(d, 'go_atomtypes.itp')
+    write_nonbond_params(system, p_nb)
+    write_atomtypes(system, p_at)
+    DeferredFileWriter().write()
+    nb_text, at_text = open(p_nb).read(), open(p_at).read()
+    shutil.rmtree(d)
+    rows = [l for l in nb_text.split('\n') if l.strip()]
+    if not rows or rows[0].split() != ['[', 'nonbond_params', ']']:
+        errs.append('nonbond_params file does not start with its directive')
+    data = [l.split(';')[0].split() for l in rows[1:] if not l.lstrip().startswith(';')]
+    want = list(obs['nb'])
+    if len(data) != len(want):
+        errs.append('%d lines written for %d Go potentials' % (len(data), len(want)))
+    for t in data:
+        if len(t) != 5 or t[2] != '1':
+            errs.append('malformed nonbond_params line %r' % (t,))
+    good = [t for t in data if len(t) == 5]
+    count_file, count_want = {}, {}
+    for t in good:
+        count_file[frozenset(t[:2])] = count_file.get(frozenset(t[:2]), 0) + 1
+    for p_ in want:
+        count_want[frozenset(p_.atoms)] = count_want.get(frozenset(p_.atoms), 0) + 1
+    for key in set(count_file) | set(count_want):
+        if count_file.get(key, 0) != count_want.get(key, 0):
+            errs.append('Go pair %r: %d potentials emitted, written %d times'
+                        % (sorted(key), count_want.get(key, 0), count_file.get(key, 0)))
+    if len(good) == len(want):
+        # all Go potentials belong to one (conditional, group) block, which keeps the emission order
+        for t, p_ in zip(good, want):
+            if [t[0], t[1]] != list(p_.atoms):
+                errs.append('Go pair %r written as %r' % (tuple(p_.atoms), t[:2]))
+                continue
+            try:
+                if abs(float(t[3]) - p_.sigma) > 5.000001e-9 or abs(float(t[4]) - p_.epsilon) > 5.000001e-9:
+                    errs.append('Go pair %r written with sigma/epsilon %s %s, computed %r %r'
+                                % (tuple(p_.atoms), t[3], t[4], p_.sigma, p_.epsilon))
+            except ValueError:
+                errs.append('non-numeric sigma/epsilon tokens %r' % (t[3:],))
+    rows = [l for l in at_text.split('\n') if l.strip()]
+    if not rows or rows[0].split() != ['[', 'atomtypes', ']']:
+        errs.append('atomtypes file does not start with its directive')
+    data = [l.split(';')[0].split() for l in rows[1:] if not l.lstrip().startswith(';')]
+    types = sorted(a.get('atype') for _, a in obs['new'])
+    if sorted(t[0] for t in data if t) != types:
+        errs.append('atomtypes lines %r do not list each virtual-site type once: %r' % ([t[0] for t in data if t], types))
+    for t in data:
+        try:
+            if len(t) != 6 or t[3] != 'A' or any(float(x) != 0 for x in (t[1], t[2], t[4], t[5])):
+                errs.append('virtual-site atomtype line %r is not "type 0 0 A 0 0"' % (t,))
+        except ValueError:
+            errs.append('non-numeric atomtype line %r' % (t,))
+    return errs
+
+
+# ----------------------------------------------------------------------------
+# histories: ONE processor object applied to several systems in a row
+# ----------------------------------------------------------------------------
+def run_history(specs, mode):
+    """mode: 'pipeline' (one GoProcessorPipeline), 'sites' (one VirtualSiteCreator, new bias processor each
+    time), 'bias' (one VirtualSiteCreator and one ComputeStructuralGoBias).
+    -> (protocol line, impl string, errors, finding, per-system observations)"""
+    par = specs[0]['params']
+    if mode == 'pipeline':
+        pl = GoProcessorPipeline([SetMoleculeMeta, VirtualSiteCreator, ComputeStructuralGoBias])
+        make_runner = lambda: pipeline_runner(pl)
+    elif mode == 'sites':
+        vsc = VirtualSiteCreator(go_anchor_bead=par['backbone'], go_atomname=par['vsname'])
+        make_runner = lambda: processors_runner(vsc, new_bias_processor(par))
+    else:
+        vsc, bias = VirtualSiteCreator(go_anchor_bead=par['backbone'], go_atomname=par['vsname']), new_bias_processor(par)
+        make_runner = lambda: processors_runner(vsc, bias)
+    # F-C18-3 (table never cleared) was fixed in /repo: the reused processor is compared with the model that
+    # clears the table; only a `known` entry switches back to the carried-table model
+    carried = mode == 'bias' and 'F-C18-3' in KNOWN_IDS
+    impls, jobs, errs, observations = [], [], [], []
+    finding, other = None, False
+    for k, sp in enumerate(specs):
+        ln, impl, obs = run_real(sp, runner=make_runner())
+        _, impl_fresh, _ = run_real(sp)
+        impls.append(impl)
+        observations.append(obs)
+        jobs.append([obs['atoms'], obs['pre_edges'], [list(c) for c in obs['contacts']]])
+        if impl != impl_fresh:
+            errs.append('application %d of a reused %s object differs from a fresh one: %s instead of %s'
+                        % (k + 1, {'pipeline': 'GoPipeline', 'sites': 'VirtualSiteCreator',
+                                   'bias': 'ComputeStructuralGoBias'}[mode], clip(impl[impl.index(' go '):], 200),
+                           clip(impl_fresh[impl_fresh.index(' go '):], 200)))
+            if mode == 'bias' and k >= 1 and 'F-C18-3' in KNOWN_IDS:
+                finding = 'F-C18-3'
+            else:
+                other = True
+        else:
+            e, f, _ = oracle(sp, obs)
+            if e and not f:
+                other = True
+            errs += e
+    low, up = Fraction(*par['low']), Fraction(*par['up'])
+    ln = line('gohist', 0 if carried else 1, par['prefix'], par['backbone'], par['vsname'], low.numerator,
+              low.denominator, up.numerator, up.denominator, par['sep'], jobs)
+    return ln, ' | '.join(impls), errs, (None if other else finding), observations
+
+
+def run_unmerged(specs):
+    """ONE application of VirtualSiteCreator + ComputeStructuralGoBias to a system of several molecules that is
+    not merged (each spec contributes its single molecule; contact map and parameters of the first spec).
+    Expected: every molecule is treated as by a fresh processor."""
+    par, contacts = specs[0]['params'], [tuple(c) for c in specs[0]['contacts']]
+    system = build_system({'molecules': [sp['molecules'][0] for sp in specs]})
+    system.go_params['go_map'] = [list(contacts)]
+    pres = [[(k, dict(a)) for k, a in m.nodes(data=True)] for m in system.molecules]
+    jobs = [[dump_atoms(m), [[a, b] for a, b in m.edges], [list(c) for c in contacts]] for m in system.molecules]
+    low, up = Fraction(*par['low']), Fraction(*par['up'])
+    status = 'ok'
+    try:
+        processors_runner(VirtualSiteCreator(go_anchor_bead=par['backbone'], go_atomname=par['vsname']),
+                          new_bias_processor(par))(system, par, low, up)
+    except SystemExit:
+        status = 'exit'
+    except KeyError:
+        status = 'keyerror'
+    nb = list(system.gmx_topology_params['nonbond_params'])
+    impls, errs = [], []
+    for m, pre, sp in zip(system.molecules, pres, specs):
+        n_ex = len(m.interactions.get('exclusions', []))
+        impl, _, _, _ = canon(m, pre, 0, 0, nb[:n_ex], status)
+        nb = nb[n_ex:]
+        impls.append(impl)
+        one = dict(sp, contacts=[list(c) for c in contacts], params=par, molecules=[sp['molecules'][0]])
+        _, fresh, _ = run_real(one)
+        if impl != fresh:
+            errs.append('molecule of an unmerged system is treated differently from a system of its own: %s instead of %s'
+                        % (clip(impl[impl.index(' go '):], 200), clip(fresh[fresh.index(' go '):], 200)))
+    ln = line('gohist', 1, par['prefix'], par['backbone'], par['vsname'], low.numerator, low.denominator,
+              up.numerator, up.denominator, par['sep'], jobs)
+    return ln, ' | '.join(impls), errs
+
+
+# ----------------------------------------------------------------------------
+# contact-map files
+# ----------------------------------------------------------------------------
+SEP = [' ', '  ', '     ', '\t', ' \t ']
+GOOD_INT = ['%d', '%d', '%d', '+%d', '00%d', '%d']
+BAD_INT = ['1A', '3.0', 'x', '--1', '1e2', '0x1', '1__0', '_1', '']
+
+
+def gen_map(rng):
+    """-> (file text, expected result computed from the way the file was built)"""
+    rows, declared, bad = [], [], False
+    for _ in range(rng.choice([0, 1, 2, 3, 5, 8, 12])):
+        kind = rng.choice(['sel', 'sel', 'sel', 'sel', 'unsel', 'comment', 'header', 'short', 'long', 'blank',
+                           'badint', 'badint-unsel', 'lower'])
+        ra, rb = rng.choice([1, 5, 12, 130, -3, 0]), rng.choice([2, 7, 44, 1001, -1])
+        ca, cb = rng.choice(['A', 'B', 'AB', '_', '1', 'Z']), rng.choice(['A', 'B', 'C', 'x'])
+        fa, fb = (rng.choice(GOOD_INT) % ra), (rng.choice(GOOD_INT) % rb)
+        if fa.startswith('+-') or fa.startswith('00-') or fb.startswith('+-') or fb.startswith('00-'):
+            fa, fb = str(ra), str(rb)
+        if rng.random() < 0.05 and ra >= 10:
+            fa = str(ra)[0] + '_' + str(ra)[1:]          # int('1_2') == 12
+        flags = rng.choice([['1', '1', '0', '1'], ['1', '0', '0', '0'], ['0', '1', '1', '1'], ['0', '0', '0', '1']])
+        if kind in ('unsel', 'badint-unsel'):
+            flags = rng.choice([['0', '1', '1', '0'], ['2', '0', '0', '1'], ['0', '0', '0', '0'], ['11', '1', '1', '1']])
+        toks = ['R', str(len(rows)), '7', 'ALA', ca, fa, '8', 'GLY', cb, fb, '%.4f' % rng.uniform(3, 9)] + flags \
+            + ['11', '369', '0']
+        if kind in ('badint', 'badint-unsel'):
+            b = rng.choice([t for t in BAD_INT if t])
+            toks[rng.choice([5, 9])] = b
+        if kind == 'short':
+            toks = toks[:rng.choice([1, 6, 17])]
+        elif kind == 'long':
+            toks = toks + ['extra']
+        elif kind == 'lower':
+            toks[0] = rng.choice(['r', 'RR', 'R:', '#R'])
+        elif kind == 'comment':
+            toks = ['#', 'R', 'comment'] if rng.random() < 0.5 else ['Reading', 'file:', '../aa.pdb']
+        elif kind == 'header':
+            toks = ['Residue-Residue', 'Contacts']
+        elif kind == 'blank':
+            toks = []
+        text = rng.choice(['', '', ' ', '\t', '   ']) + ''.join(t + rng.choice(SEP) for t in toks[:-1]) \
+            + (toks[-1] if toks else '') + rng.choice(['', '', ' ', ' \t'])
+        rows.append(text)
+        if kind == 'sel' and not bad:
+            declared.append([ra, ca, rb, cb])
+        if kind == 'badint':
+            bad = True
+    nl = rng.choice(['\n', '\n', '\n', '\r\n', '\r'])
+    text = nl.join(rows) + rng.choice(['', nl])
+    if bad:
+        want = 'valueerror'
+    elif not declared:
+        want = 'ioerror'
+    else:
+        want = 'ok ' + enc(declared)
+    return text, want
+
+
+def run_map(text):
+    path = os.path.join(TMP, 'gen.map')
+    with open(path, 'wb') as f:
+        f.write(text.encode('ascii'))
+    system = vermouth.System()
+    try:
+        read_go_map(system, path)
+    except ValueError:
+        return 'valueerror'
+    except IOError:
+        return 'ioerror'
+    got = system.go_params['go_map']
+    if len(got) != 1:
+        return 'go_map has %d entries' % len(got)
+    return 'ok ' + enc([list(c) for c in got[0]])
+
+
+# ----------------------------------------------------------------------------
 # generator
 # ----------------------------------------------------------------------------
-def gen_spec(rng, want=None):
+def gen_spec(rng, want=None, chain_ids=None):
     """want: None | 'resid-clash' | 'prefix-clash' | 'dup-key' | 'repeat' | 'no-bb'"""
     nmol = rng.choice([1, 1, 2, 2, 3])
-    chain_ids = rng.sample(['A', 'B', 'C', 'D', 'E', 'F', ''], 6)
+    chain_ids = chain_ids or rng.sample(['A', 'B', 'C', 'D', 'E', 'F', ''], 6)
     molecules = []
     residues = []        # (chain, old_resid, mol index)
     pos = (rng.randint(0, 3), rng.randint(0, 3), rng.randint(0, 3))
@@ -489,13 +782,13 @@ def gen_spec(rng, want=None):
 specs = []
 for path in sorted(glob.glob(os.path.join(VERIF, 'corpus', 'c18_*.json'))):
     data = json.load(open(path))
-    for i, sp in enumerate(data['cases']):
+    for i, sp in enumerate(data.get('cases', [])):
         if sp.get('requires_known') and sp['requires_known'] not in KNOWN_IDS:
             chk.count('corpus_case_needs_known_finding_entry')
             continue
         specs.append(('corpus-%s-%d' % (os.path.basename(path)[4:-5], i), sp))
 rng = chk.rng('go')
-N = 30000 if chk.thorough else 3000
+N = 30000 if chk.thorough else 2500
 for i in range(N):
     k = rng.random()
     want = None
@@ -517,9 +810,19 @@ for i in range(N):
             chk.count('stream_prefix_clash_disabled(no F-C18-2 entry)')
     specs.append(('go-%d' % i, gen_spec(rng, want)))
 
+def file_route_ok(sp):
+    return bool(sp['contacts']) and all(isinstance(c[1], str) and isinstance(c[3], str) and c[1].strip() == c[1] != ''
+                                        and c[3].strip() == c[3] != '' and ' ' not in c[1] + c[3]
+                                        for c in sp['contacts'])
+
+
 lines, impls, meta = [], [], []
-for cid, sp in specs:
-    ln, impl, obs = run_real(sp)
+for n_, (cid, sp) in enumerate(specs):
+    via_file = n_ % 3 == 0 and file_route_ok(sp)
+    if via_file:
+        chk.count('contact_list_read_by_read_go_map')
+    ln, impl, obs = run_real(sp, via_file=via_file)
+    obs['writer_errs'] = writer_oracle(obs) if (n_ % 4 == 0 and obs['status'] == 'ok') else None
     lines.append(ln)
     impls.append(impl)
     meta.append((cid, sp, obs))
@@ -554,7 +857,70 @@ for ln, impl, mo, (cid, sp, obs) in zip(lines, impls, models, meta):
                 if (c[1], c[0]) in bbp and (c[3], c[2]) in bbp else None
             if d2 is not None and (Fraction(d2) == obs['low'] ** 2 or Fraction(d2) == obs['up'] ** 2):
                 chk.count('contact_exactly_on_a_cutoff')
+    if obs['file_err']:
+        errs = errs + [obs['file_err']]
+    if obs['writer_errs'] is not None:
+        chk.count('written_files_checked')
+        errs = errs + obs['writer_errs']
     if finding:
         chk.count('finding_' + finding)
     chk.case(cid, ln, impl, mo, errs, nontriv, finding=finding)
+
+# ---- histories: one processor object, several systems ---------------------------------------
+hists = []
+for path in sorted(glob.glob(os.path.join(VERIF, 'corpus', 'c18_*.json'))):
+    for i, h in enumerate(json.load(open(path)).get('histories', [])):
+        if h.get('requires_known') and h['requires_known'] not in KNOWN_IDS | FIXED_IDS:
+            chk.count('corpus_case_needs_known_finding_entry')
+            continue
+        hists.append(('corpus-%s-hist-%d' % (os.path.basename(path)[4:-5], i), h['mode'], h['specs']))
+rng = chk.rng('history')
+NH = 2400 if chk.thorough else 200
+for i in range(NH):
+    mode = rng.choice(['pipeline', 'sites', 'bias', 'bias', 'unmerged'])
+    cids = rng.sample(['A', 'B', 'C', 'D', 'E', 'F', ''], rng.choice([2, 3, 6])) if rng.random() < 0.8 else None
+    hs = [gen_spec(rng, chain_ids=cids and rng.sample(cids, len(cids))) for _ in range(rng.choice([2, 2, 3]))]
+    for sp in hs[1:]:
+        sp['params'] = hs[0]['params']
+    hists.append(('hist-%d' % i, mode, hs))
+hl, hmeta = [], []
+for cid, mode, hs in hists:
+    if mode == 'unmerged':
+        ln, impl, errs = run_unmerged(hs)
+        finding, observations = None, []
+    else:
+        ln, impl, errs, finding, observations = run_history(hs, mode)
+    hl.append(ln)
+    hmeta.append((cid, mode, hs, impl, errs, finding, observations))
+hmodels = chk.drv.ask(hl) if chk.lean_ok else [None] * len(hl)
+for ln, mo, (cid, mode, hs, impl, errs, finding, observations) in zip(hl, hmodels, hmeta):
+    if any(order_sensitive(sp, obs) for sp, obs in zip(hs, observations)):
+        chk.count('excluded_from_model_comparison:subgraph_set_order')
+        mo = None
+    chk.count('history_mode_' + mode)
+    chk.count('history_length=%d' % len(hs))
+    if finding:
+        chk.count('finding_' + finding)
+    if mode == 'bias' and observations:
+        chk.count('reused_bias_aborted' if any(o['status'] != 'ok' for o in observations[1:]) else 'reused_bias_ok')
+    chk.case(cid, ln, impl, mo, errs, sum(1 for o in observations if o['nb']) >= 1 or mode == 'unmerged', finding=finding)
+
+# ---- contact-map files ------------------------------------------------------------------------
+rng = chk.rng('map')
+texts = []
+for path in sorted(glob.glob(os.path.join(VERIF, 'corpus', 'c18_*.json'))):
+    for m in json.load(open(path)).get('maps', []):
+        texts.append((m['text'], m.get('want')))
+for i in range(12000 if chk.thorough else 1500):
+    texts.append(gen_map(rng))
+ml = [line('gomap', t) for t, _ in texts]
+mimpl = [run_map(t) for t, _ in texts]
+mmodels = chk.drv.ask(ml) if chk.lean_ok else [None] * len(ml)
+for i, ((t, want), ln, im, mo) in enumerate(zip(texts, ml, mimpl, mmodels)):
+    errs = []
+    if want is not None and im != want:
+        errs.append('read_go_map gives %s, the file declares %s' % (clip(im, 200), clip(want, 200)))
+    chk.count('map_' + im.split()[0])
+    chk.case('map-%d' % i, ln, im, mo, errs, im.startswith('ok') and ('\t' in t or '#' in t or 'Residue' in t))
+shutil.rmtree(TMP, ignore_errors=True)
 chk.finish()
